@@ -24,9 +24,9 @@ from tally.merchant_engine import MerchantParseError, parse_merchants
 from tally.section_engine import SectionParseError, parse_sections
 
 
-def run_m(text):
+def run_m(text, mode=None):
     try:
-        e = parse_merchants(text)
+        e = parse_merchants(text) if mode is None else parse_merchants(text, match_mode=mode)
     except MerchantParseError as x:
         return {'ok': False, 'line': x.line_number}
     except Exception as x:  # noqa
@@ -89,12 +89,54 @@ def run_load(job):
     return out
 
 
+def run_load_seq(job):
+    """ONE process, ONE path: the file is rewritten with each text in turn and the three loaders are called on it
+    (rotating order) WITHOUT clearing the engine cache / report memory in between (cleared once at the start).
+    Per step: the parse error text of the file (None if it loads) - used by the harness only to tell whether this
+    error was already shown earlier in the sequence - and everything that reached the user during the step."""
+    from tally import merchant_utils
+    os.makedirs(job['dir'], exist_ok=True)
+    path = os.path.join(job['dir'], 'merchants.rules')
+    merchant_utils.clear_engine_cache()
+    loaders = [('transforms', merchant_utils.get_transforms), ('rules', merchant_utils.get_all_rules),
+               ('tag_rules', merchant_utils.get_tag_only_rules)]
+    steps = []
+    for k, text in enumerate(job['texts']):
+        with open(path, 'w', encoding='utf-8', newline='') as f:
+            f.write(text)
+        try:
+            parse_merchants(text)
+            err = None
+        except MerchantParseError as x:
+            err = str(x)
+        except Exception as x:  # noqa
+            err = 'other:' + type(x).__name__
+        st = {'err': err, 'said': [], 'values': {}, 'exc': {}}
+        order = loaders[k % 3:] + loaders[:k % 3]
+        if job.get('only'):
+            order = [l for l in order if l[0] in job['only']]
+        for tag, fn in order:
+            buf_o, buf_e = io.StringIO(), io.StringIO()
+            with warnings.catch_warnings(record=True) as w, contextlib.redirect_stdout(buf_o), contextlib.redirect_stderr(buf_e):
+                warnings.simplefilter('always')
+                try:
+                    v = fn(path)
+                    st['values'][tag] = len(v)
+                except Exception as x:  # noqa
+                    st['exc'][tag] = type(x).__name__
+            st['said'] += [str(x.message) for x in w] + [t for t in (buf_o.getvalue(), buf_e.getvalue()) if t.strip()]
+        steps.append(st)
+    return steps
+
+
 def main():
     p = json.load(sys.stdin)
     res = {'m': [run_m(t) for t in p.get('m', [])],
            'v': [run_v(t) for t in p.get('v', [])],
            'exprs': [run_expr(e) for e in p.get('exprs', [])],
-           'load': [run_load(j) for j in p.get('load', [])]}
+           'load': [run_load(j) for j in p.get('load', [])],
+           'm_ms': [run_m(t, 'most_specific') for t in p.get('m_ms', [])],
+           'load_seq': [run_load_seq(j) for j in p.get('load_seq', [])]}
     json.dump(res, sys.stdout)
 
 
